@@ -919,7 +919,9 @@ impl Formatter {
     if self.html {
       format!("<div id=\"{}\" equation=\"{}\" class=\"mech-equation\"></div>",id, node.to_string())
     } else {
-      format!("$${}\n", node.to_string())
+      // The text of a fenced equation ends with its line break; a $$ line holds a single line.
+      let body = node.to_string();
+      if body.ends_with('\n') { format!("```equation\n{}```\n", body) } else { format!("$${}\n", body) }
     }
   }
 
@@ -928,7 +930,8 @@ impl Formatter {
     if self.html {
       format!("<div id=\"{}\" class=\"mech-diagram mermaid\">{}</div>",id, node.to_string())
     } else {
-      format!("```{{diagram}}\n{}\n```", node.to_string())
+      let body = node.to_string();
+      if body.ends_with('\n') { format!("```diagram\n{}```\n", body) } else { format!("```diagram\n{}\n```\n", body) }
     }
   }
 
